@@ -2,7 +2,7 @@
 import ast
 import z3
 
-from .ty import (INT, BOOL, STR, BYTES, FLOAT, NONE, VAL, ANYFUNC, Ref, ListT, DictT, TupleT,
+from .ty import (INT, BOOL, STR, BYTES, FLOAT, NONE, VAL, REAL, ANYFUNC, Ref, ListT, DictT, TupleT,
                  Fl, Val, sort_of, sort_key, is_reflike)
 from . import engine as E
 from .engine import pystr, SV, Exc, Unsupported, CLS, I, B, S, fresh
@@ -18,7 +18,7 @@ SPEC_FORMS = ('old', 'forall', 'exists', 'implies', 'ite', 'pow2', 'typeis', 'is
               'str_indexof', 'str_at', 'str_suffixof', 'Eq', 'wsonly', 'lstripped', 'val_eq',
               'U', 'app', 'splice', 'Bst', 'appb', 'Bin', 'appbin', 'is_binstr', 'binval',
               'prefix_same', 'outside_same', 'chars_eq', 'allspaces', 'allchar', 'is_bool', 'oval',
-              'isdigits', 'str2int', 'same_dict', 'dval', 'gh', 'ghat', 'same_ghosts', 'npow2', 'asref', 'allzero_bytes', 'chars')
+              'isdigits', 'str2int', 'same_dict', 'dval', 'gh', 'ghat', 'same_ghosts', 'npow2', 'asref', 'allzero_bytes', 'chars', 'entry', 'is_ref', 'refof', 'aslist_vv')
 
 
 def eval_call(eng, e, st, ctx):
@@ -333,6 +333,17 @@ def spec_form(eng, e, st, ctx):
         return SV(VAL, Val.vnone)
     if name == 'vint':
         return SV(VAL, Val.vint(ev1(a[0]).z))
+    if name == 'aslist_vv':
+        # the list of per-subset value lists held in a dynamically typed slot (SectionParameter.value of the data section)
+        x = ev1(a[0])
+        return SV(ListT(ListT(VAL)), Val.rval(eng.coerce(x, VAL).z))
+    if name == 'is_ref':
+        x = ev1(a[0])
+        return SV(BOOL, Val.is_vref(eng.coerce(x, VAL).z))
+    if name == 'refof':
+        # refof(v, 'list:val') style casts are not needed: refof(v) gives the identity held in a dynamically typed slot
+        x = ev1(a[0])
+        return SV(INT, Val.rval(eng.coerce(x, VAL).z))
     if name in ('is_none', 'is_int', 'is_flt', 'is_byt', 'is_txt', 'is_bool'):
         x = ev1(a[0])
         if x.ty != VAL:
@@ -449,6 +460,18 @@ def spec_form(eng, e, st, ctx):
         if ty is None:
             raise Unsupported('ghost sort %s' % rs)
         return SV(ty, z)
+    if name == 'entry':
+        # entry(e): e evaluated in the state in which the enclosing loop was entered (loop invariants / step clauses)
+        les = getattr(ctx, 'loop_entry_state', None)
+        if les is None:
+            raise Unsupported('entry() outside a loop invariant')
+        c2 = eng.spec_ctx(ctx, old_state=ctx.old_state, result=ctx.result, bound=ctx.bound)
+        tmp = les.fork()
+        n0 = len(tmp.pc)
+        sv = eng.spec_eval(a[0], tmp, c2)
+        for f in tmp.pc[n0:]:
+            st.assume(f)
+        return sv
     if name == 'chars':
         # the character sequence of a bytes / text value (latin-1 view, L5)
         x = ev1(a[0])
@@ -832,6 +855,9 @@ def b_round(eng, e, st, ctx):
 
 def b_abs(eng, e, st, ctx):
     for st2, args, _ in _args(eng, e, st, ctx):
+        if args[0].ty == REAL:
+            yield st2, SV(REAL, z3.If(args[0].z >= 0, args[0].z, -args[0].z))
+            continue
         x = eng.coerce(args[0], INT) if args[0].ty in (INT, BOOL) else None
         if x is None:
             raise Unsupported('abs of %r' % (args[0].ty,))
